@@ -370,14 +370,35 @@ def programs4(tier, tagged):
 
 # --------------------------------------------------------------------------- 1. the arithmetic kernels
 
-def _unit(tier, prog, symbolic_ok=True):
+def _unit(tier, prog, symbolic_ok=True, light=True):
     """Whether the reactant coefficient is pinned to -1 (leaf with nu_r == -1 assumed) instead of any negative real.
-    The division by a symbolic |nu_r| (Reaction._rescale) is what makes the VCs expensive: C05/kernel discharges it for
-    every structure with <= 2 reactions; the other groups use it where the budget allows (everywhere with <= 2
-    reactions in the thorough tier)."""
-    if _n_rxns(prog) >= 3: return True
-    if tier == 'thorough': return False
+    The division by a symbolic |nu_r| (Reaction._rescale) is what makes the VCs expensive (measured: 0.2 s pinned,
+    10 s - 12 min free for the same structure).  C05/kernel discharges the free form for every structure with <= 2
+    reactions; the other groups use it where the budget allows: quick = the designated configurations, thorough =
+    every single reaction, and two distinct-reactant reactions on the light materials (`light`)."""
+    n = _n_rxns(prog)
+    if n >= 3: return True
+    if tier == 'thorough':
+        if n == 1: return False
+        return _same_reactant(prog) or not light
     return not symbolic_ok
+
+
+def _same_reactant(prog):
+    if prog['kind'] == 'system':
+        ds = [d for m in prog['members'] for d in m['rxns']]
+    else:
+        ds = prog['rxns']
+    rs = [d['reactant'] for d in ds]
+    return len(set(rs)) < len(rs)
+
+
+def _heavy_skip(tier, prog, mat, pkg, basis):
+    """Thorough-tier pruning (measured): chains of >= 3 reactions on a weight basis / mass views / other packages cost
+    minutes per VC even with pinned reactants; they are kept on the molar basis for s:P3, s:Q3 and sparse data."""
+    if tier != 'thorough' or _n_rxns(prog) < 3: return False
+    if basis == 'wt': return not (prog['kind'] == 'parallel' and (mat, pkg) == ('s', 'P3'))
+    return (mat, pkg) not in (('s', 'P3'), ('s', 'Q3'), ('sv', 'P3'))
 
 
 def _n_rxns(prog):
@@ -471,8 +492,11 @@ def call_configs(tier):
                             continue
                         if not full and pkg == 'Q3' and pname not in ('series[a>b;b>c]', 'system[par(a>b|b>c);c>a]', 'single3[Ethanol]'):
                             continue
+                    if _heavy_skip(tier, prog, mat, pkg, basis):
+                        continue
                     unit = _unit(tier, prog, symbolic_ok=(pname.startswith('single2') or (not tagged and pname == 'single3[Water]' and (mat, pkg, basis) in (
-                        ('s', 'P3', 'mol'), ('s', 'Q3', 'wt'), ('sv', 'P3', 'mol'), ('nd', 'P3', 'wt')))))
+                        ('s', 'P3', 'mol'), ('s', 'Q3', 'wt'), ('sv', 'P3', 'mol'), ('nd', 'P3', 'wt')))),
+                                 light=((mat, pkg, basis) in (('s', 'P3', 'mol'), ('sv', 'P3', 'mol'))))
                     flows = 'sparse' if (tagged and mat == 's') or (_n_rxns(prog) >= 2 and mat in ('s', 'massview')) else 'all'
                     out.append({'name': f'{"tagged" if tagged else "plain"};{pname};{mat}:{pkg};{basis};{flows}' + (';unit' if unit else ''),
                                 'tagged': tagged, 'prog': prog, 'mat': mat, 'pkg': pkg, 'basis': basis, 'unit': unit, 'flows': flows})
@@ -559,10 +583,12 @@ def force_configs(tier):
                    ('single2[Water>Ethanol]', 's', 'wt'), ('single3[Ethanol]', 's', 'mol'), ('parallel[a>b|b>c]', 's', 'mol'),
                    ('parallel[a>b|b>c]', 'sv', 'mol')]
         else:
-            sel = [(pn, m, b) for pn in progs for m, b in (('s', 'mol'), ('sv', 'mol'), ('s', 'wt'), ('nd', 'mol'))]
+            sel = [(pn, m, b) for pn in progs for m, b in (('s', 'mol'), ('sv', 'mol'), ('s', 'wt'), ('nd', 'mol'))
+                   if not _heavy_skip(tier, progs[pn], m, 'P3', b)]
         for pname, mat, basis in sel:
             prog = progs[pname]
-            unit = _unit(tier, prog, symbolic_ok=(pname.startswith('single2') or (not tagged and (pname, mat) == ('single3[Water]', 's'))))
+            unit = _unit(tier, prog, symbolic_ok=(pname.startswith('single2') or (not tagged and (pname, mat) == ('single3[Water]', 's'))),
+                         light=((mat, basis) == ('s', 'mol')))
             flows = 'sparse' if (tagged or (mat == 's' and (basis == 'wt' or _n_rxns(prog) >= 2))) else 'all'
             out.append({'name': f'{"tagged" if tagged else "plain"};{pname};{mat}:P3;{basis};{flows}' + (';unit' if unit else ''),
                         'tagged': tagged, 'prog': prog, 'mat': mat, 'pkg': 'P3', 'basis': basis, 'unit': unit, 'flows': flows})
@@ -630,7 +656,9 @@ def basis_configs(tier):
                             continue
                         if tier == 'quick' and how == 'setter' and direction == 'wt->mol':
                             continue
-                        unit = _unit(tier, prog, symbolic_ok=pname.startswith('single2'))
+                        if tier == 'thorough' and _n_rxns(prog) >= 3 and (pkg != 'P3' or prog['kind'] == 'series' or _n_rxns(prog) > 3):
+                            continue
+                        unit = _unit(tier, prog, symbolic_ok=pname.startswith('single2'), light=False)
                         out.append({'name': f'{"tagged" if tagged else "plain"};{pname};{how};{direction};{pkg}' + (';unit' if unit else ''),
                                     'tagged': tagged, 'prog': prog, 'how': how, 'dir': direction, 'pkg': pkg, 'unit': unit})
     return out
@@ -821,7 +849,7 @@ def multiphase_configs(tier):
         for basis in ('mol', 'wt'):
             if tier == 'quick' and basis == 'wt' and pname != 'single3[Water]': continue
             prog = programs(tier, False)[pname]
-            out.append({'name': f'{pname};{basis}', 'prog': prog, 'basis': basis, 'unit': _unit(tier, prog, symbolic_ok=False)})
+            out.append({'name': f'{pname};{basis}', 'prog': prog, 'basis': basis, 'unit': _unit(tier, prog, symbolic_ok=False, light=False)})
     return out
 
 
